@@ -24,6 +24,7 @@ type sqlCase struct {
 	tags      []string
 	expectErr []bool       // the property requires an error (ambiguity probes)
 	mayRefuse map[int]bool // refusing the query as ambiguous is as acceptable as the right answer
+	notJudged map[int]bool // ill-typed on purpose: run for what it may leave behind, its own outcome is nobody's business here
 	reopen    bool
 }
 
@@ -93,6 +94,10 @@ func runSQLCaseKeep(c *core.Ctx, prop, drv string, idx int, sc *sqlCase, m *mode
 		c.Count("tag_"+sc.tags[qi], 1)
 		if res.Panic != "" {
 			c.Violation(prop+":panic:"+res.Frame, fmt.Sprintf("query panicked: %s\n%s", res.Panic, sc.texts[qi]), replay)
+			continue
+		}
+		if sc.notJudged[qi] {
+			c.Count("ill_typed_queries_run_in_between_not_judged", 1)
 			continue
 		}
 		if sc.expectErr[qi] {
@@ -324,6 +329,69 @@ func checkC05(c *core.Ctx) []core.Floor {
 			sc.tags = append(sc.tags, "alias_shadows_a_pinned_column")
 			sc.expectErr = append(sc.expectErr, false)
 		}
+		// a second table with the same column names in the opposite order; an
+		// ill-typed condition on the first table (refused while its rows are
+		// looked at - not judged), then a query without WHERE on the second
+		// one with a comparison on the same-named column in its select list:
+		// whatever the refused query leaves behind must not reach the next one
+		{
+			ct2 := &proto.Stmt{Kind: "create", Table: "t2"}
+			for k := len(ct.Defs) - 1; k >= 0; k-- {
+				ct2.Defs = append(ct2.Defs, ct.Defs[k])
+			}
+			ins2 := &proto.Stmt{Kind: "insert", Table: "t2"}
+			if rows > 0 {
+				for _, row := range ins.Rows[:min(len(ins.Rows), 12)] {
+					var rv []proto.Val
+					for k := len(row) - 1; k >= 0; k-- {
+						rv = append(rv, row[k])
+					}
+					ins2.Rows = append(ins2.Rows, rv)
+				}
+			}
+			extra := []*proto.Stmt{ct2}
+			if len(ins2.Rows) > 0 {
+				extra = append(extra, ins2)
+			}
+			if applyAll(m, extra) {
+				sc.setup = append(sc.setup, extra...)
+				if sc.notJudged == nil {
+					sc.notJudged = map[int]bool{}
+				}
+				for k := 0; k < 4; k++ {
+					col := t.Cols[r.Intn(len(t.Cols))]
+					var bad, good *proto.Cond
+					switch col.Type {
+					case "varchar":
+						bad = &proto.Cond{Op: ">", LHS: model.ColOp(col.Name), RHS: model.LitOp(proto.Int(5))}
+						good = &proto.Cond{Op: "=", LHS: model.ColOp(col.Name), RHS: model.LitOp(g.LitFor("varchar"))}
+					case "boolean":
+						bad = &proto.Cond{Op: ">", LHS: model.ColOp(col.Name), RHS: model.LitOp(proto.Int(1))}
+						good = &proto.Cond{Op: "=", LHS: model.ColOp(col.Name), RHS: model.LitOp(proto.Bool(r.Bool()))}
+					default:
+						bad = &proto.Cond{Op: ">=", LHS: model.ColOp(col.Name), RHS: model.LitOp(proto.Str("x"))}
+						good = &proto.Cond{Op: []string{">", "<", "="}[r.Intn(3)], LHS: model.ColOp(col.Name), RHS: model.LitOp(g.LitFor("int"))}
+					}
+					poison := &proto.NStmt{Kind: "select", From: []proto.NTable{{Name: "t1"}}, Where: bad,
+						Items: []proto.NItem{{Kind: "expr", Expr: &proto.Cond{Op: "val", LHS: model.ColOp("u")}}}}
+					if k%2 == 1 {
+						poison.Where = model.Or(&proto.Cond{Op: "=", LHS: model.ColOp("u"), RHS: model.LitOp(proto.Int(-1))}, bad)
+					}
+					sc.notJudged[len(sc.queries)] = true
+					sc.queries = append(sc.queries, poison)
+					sc.texts = append(sc.texts, model.RenderN(poison, model.Plain))
+					sc.tags = append(sc.tags, "ill_typed_not_judged")
+					sc.expectErr = append(sc.expectErr, false)
+					victim := &proto.NStmt{Kind: "select", From: []proto.NTable{{Name: "t2"}},
+						Items:   []proto.NItem{{Kind: "expr", Expr: good, Alias: "x"}, {Kind: "expr", Expr: &proto.Cond{Op: "val", LHS: model.ColOp("u")}}},
+						OrderBy: []proto.NOrder{{Col: proto.Operand{Col: "u"}}}}
+					sc.queries = append(sc.queries, victim)
+					sc.texts = append(sc.texts, model.RenderN(victim, randStyle(r)))
+					sc.tags = append(sc.tags, "after_a_refused_query_same_named_column_elsewhere")
+					sc.expectErr = append(sc.expectErr, false)
+				}
+			}
+		}
 		// queries that differ from one another only in the blanks inside a
 		// string literal, written identically otherwise, one after the other
 		if i%4 == 0 && len(t.Cols) == 5 {
@@ -346,7 +414,7 @@ func checkC05(c *core.Ctx) []core.Floor {
 // ---------- C06 ----------
 
 func checkC06(c *core.Ctx) []core.Floor {
-	c.Rule = "up to three tables of 0-12 rows sharing column names (one case in 25 also joins two tables of 220-420 rows with many duplicate keys: tens of thousands of pairs), with duplicate and missing join keys and empty sides; chains of 1-2 joins mixing INNER (with and without the keyword), LEFT, RIGHT, ON = key equality optionally combined with further comparisons, self-joins under two aliases, qualifier = alias when given else table name; compared as multisets with join-by-definition over the model (NULL padding explicit). Ambiguity probes: an unqualified name that exists on both sides (of two or three tables, filled or empty) must be rejected with an error wherever it stands: bare in the select list, inside a comparison or a later AND/OR term of the select list, in WHERE (first or later term), in ON (first or later term), in ORDER BY, as COUNT's argument, in GROUP BY. Distinct = query text; non-trivial = non-empty expected result or an ambiguity probe."
+	c.Rule = "up to three tables of 0-12 rows sharing column names (one case in 25 also joins two tables of 220-420 rows with many duplicate keys: tens of thousands of pairs), with duplicate and missing join keys and empty sides; chains of 1-2 joins mixing INNER (with and without the keyword), LEFT, RIGHT, ON = key equality optionally combined with further comparisons, self-joins under two aliases, qualifier = alias when given else table name; compared as multisets with join-by-definition over the model (NULL padding explicit). Ambiguity probes: an unqualified name that exists on both sides (of two or three tables, filled or empty) must be rejected with an error wherever it stands: bare in the select list, inside a comparison or a later AND/OR term of the select list, in WHERE (first or later term), in ON (first or later term), in ORDER BY, as COUNT's argument, in GROUP BY. In addition, sessions of 8-20 statements (CREATE TABLE / INSERT / UPDATE / DELETE) ask inner, left, right and self joins over the catalog tables sys_pages / sys_schema after every statement; the pairs for the tables created so far must be those of the model of what was created (not of another read of the catalog). Distinct = query text; non-trivial = non-empty expected result or an ambiguity probe."
 	c.Assume = []string{"join keys are non-NULL (the property says so); a side that may have been NULL-padded by an earlier outer join is only compared with = against a stored column"}
 	drv := mustDriver(c, false)
 	n := 100
@@ -558,7 +626,8 @@ func checkC06(c *core.Ctx) []core.Floor {
 		}
 		runSQLCase(c, "C06", drv, i, sc, m)
 	})
-	fl := []core.Floor{{Key: "queries", Min: 2000}, {Key: "results_equal_to_reference", Min: 1000}, {Key: "ambiguity_rejected", Min: 50}}
+	core.ParallelFor(n/2, c.Workers, func(i int) { runC06Catalog(c, drv, i) })
+	fl := []core.Floor{{Key: "catalog_joins_compared", Min: 300}, {Key: "queries", Min: 2000}, {Key: "results_equal_to_reference", Min: 1000}, {Key: "ambiguity_rejected", Min: 50}}
 	for _, a := range []string{"i", "l", "r"} {
 		for _, b := range []string{"i", "l", "r"} {
 			fl = append(fl, core.Floor{Key: "tag_joins_" + a + b, Min: 5})
@@ -681,6 +750,23 @@ func runC07(c *core.Ctx, drv string, idx int) {
 		}
 		if nrows == 0 {
 			c.Count("empty_input", 1)
+		}
+	}
+	// aggregates over conditions that differ from one another only in the
+	// blanks inside a string literal ('1 2' is a value of g1, '1  2' is not),
+	// written identically otherwise, one after the other
+	if idx%3 == 0 {
+		for _, w := range []string{"1 2", "1  2", "1 2", " 1 2", "1\t2"} {
+			for p := 0; p < 3; p++ {
+				q := &proto.NStmt{Kind: "select", From: []proto.NTable{{Name: fmt.Sprintf("p%d", p)}},
+					Where: &proto.Cond{Op: "=", LHS: model.ColOp("g1"), RHS: model.LitOp(proto.Str(w))},
+					Items: []proto.NItem{{Kind: "count"}, {Kind: "count", Arg: &proto.Operand{Col: "n0"}}, {Kind: "avg", Arg: &proto.Operand{Col: "gi"}}}}
+				sc.queries = append(sc.queries, q)
+				sc.texts = append(sc.texts, model.RenderN(q, model.Plain))
+				sc.tags = append(sc.tags, "whitespace_twins")
+				sc.expectErr = append(sc.expectErr, false)
+				c.Count("whitespace_twin_aggregates", 1)
+			}
 		}
 	}
 	// run and judge against the reference
